@@ -23,7 +23,8 @@ ASSUMPTIONS = ["a crash is modelled as process death immediately before a file-s
                "written is assumed durable (no lost page cache)", "copies are performed in 64 kB chunks in the crashing child",
                "a manager that raises on construction counts as 'does not list the backup'"]
 MIN_MONITOR_EVALS = {"crash-point": 100, "crash-inside-copy": 10, "crash-inside-record": 5, "restore-byte-identical": 40,
-                     "task-restore-touches-only-tasks": 20, "remodel-twice-equals-once": 10, "same-name-not-overwritten": 20}
+                     "task-restore-touches-only-tasks": 20, "remodel-twice-equals-once": 10, "same-name-not-overwritten": 20,
+                     "second-backup-leaves-first-alone": 10, "partial-backup-twice-equals-once": 5}
 WATCHDOG_S = {"quick": 900, "thorough": 5400}
 OPS_MODEL = [{"operation": "rename_columns", "description": "x",
               "parameters": {"column_mapping": {"trial_type": "event_type"}, "ignore_missing": True}},
@@ -193,10 +194,36 @@ def run_history_case(case, rec):
         with open(model_path, "w") as f:
             json.dump(OPS_MODEL, f)
         name = "default_back"
+        mgr = BackupManager(root)                      # one manager object kept for the whole history
         if rng.random() < 0.5:
             run_remodel_backup.main([root, "-x", "derivatives"])
         else:
-            BackupManager(root).create_backup([os.path.join(os.path.realpath(root), r) for r in rels], backup_name=name)
+            mgr.create_backup([os.path.join(os.path.realpath(root), r) for r in rels], backup_name=name)
+        # a backup of a selection only, and the remodeler run over the whole tree with it: whatever it does with the
+        # files that are not in that backup, doing it twice gives what doing it once gives
+        if len(rels) >= 2 and rng.random() < 0.3:
+            part = rels[:max(1, len(rels) // 2)]
+            BackupManager(root).create_backup([os.path.join(os.path.realpath(root), r) for r in part], backup_name="part_back")
+            swap_path = os.path.join(base, "swap.json")
+            with open(swap_path, "w") as f:
+                json.dump([{"operation": "rename_columns", "description": "x", "parameters": {
+                    "column_mapping": {"trial_type": "response", "response": "trial_type"}, "ignore_missing": True}}], f)
+            states = []
+            for _run in range(2):
+                try:
+                    run_remodel.main([root, swap_path, "-bn", "part_back", "-x", "derivatives"])
+                except Exception:  # noqa   (refusing files that are not in the backup is fine)
+                    pass
+                states.append(tree_bytes(root, rels))
+            rec.mon("partial-backup-twice-equals-once")
+            if states[0] != states[1]:
+                rec.violation("with a backup of a selection, running the remodeler twice differs from running it once",
+                              dict(case, ops=["partial-backup"]))
+                return
+            BackupManager(root).restore_backup("part_back", verbose=False)
+            for r in rels:                              # put the files outside the selection back by hand
+                with open(os.path.join(root, r), "wb") as f:
+                    f.write(originals[r])
         # a second, legitimately empty backup (a selection that matched nothing)
         empty_name = "empty_back"
         BackupManager(root).create_backup([], backup_name=empty_name)
@@ -212,7 +239,7 @@ def run_history_case(case, rec):
         ops = []
         for _ in range(rng.randrange(3, 9)):
             op = rng.choice(["modify", "modify", "delete", "remodel", "restore", "restore-tasks", "backup-again",
-                             "remodel-twice"])
+                             "remodel-twice", "second-backup-same-manager"])
             ops.append(op)
             case_now = dict(case, ops=list(ops))
             if op == "modify":
@@ -293,6 +320,23 @@ def run_history_case(case, rec):
                     if r in written and now[r] != originals[r]:
                         rec.violation("a file restored by a task-restricted restore differs from its backup-time content",
                                       dict(case_now, file=r))
+                        return
+            elif op == "second-backup-same-manager":
+                # the manager that made (or first listed) the default backup makes another one under a new name
+                rec.mon("second-backup-leaves-first-alone")
+                present = [r for r in rels if os.path.exists(os.path.join(root, r))]
+                mgr.create_backup([os.path.join(os.path.realpath(root), r) for r in present],
+                                  backup_name=f"second_{len(ops)}")
+                now_state = {os.path.relpath(os.path.join(d, f), backup_dir): open(os.path.join(d, f), "rb").read()
+                             for d, _, fs in os.walk(backup_dir) for f in fs}
+                if now_state != backup_state:
+                    rec.violation("creating a backup under another name changed the files of the first backup", case_now)
+                    return
+                sec_dir = os.path.join(root, "derivatives", "remodel", "backups", f"second_{len(ops)}", "backup_root")
+                for r in present:
+                    p2 = os.path.join(sec_dir, r)
+                    if not os.path.exists(p2) or open(p2, "rb").read() != open(os.path.join(root, r), "rb").read():
+                        rec.violation("a second backup does not hold the files as they were when it was made", case_now)
                         return
             elif op == "backup-again":
                 rec.mon("same-name-not-overwritten")
